@@ -43,7 +43,12 @@ def gen_exact(rng, n, tier):
         vals = rng.choice([[0, 1], [0, 1, 2, 3], [0, 1, 2, 5, 9]])
         dim = rng.choice([2, 2, 1])                                  # dim 1: the altitude column carries the signal, the abscissa is noise for the distance
         zv = (lambda: rng.choice(vals)) if dim == 1 else (lambda: rng.choice([0, 0, 3]))
-        out.append({'x1': [[rng.choice(vals), 0, zv()] for _ in range(n1)], 'x2': [[rng.choice(vals), 0, zv()] for _ in range(n2)], 'p': rng.choice([1, 2, INF]), 'dim': dim, 'rematch': rng.choice([None, None, None, 'dtw', 'frechet']), 'ptype': rng.choice([None, None, 'float', 'np.int64', 'np.float64', 'np.int32']), 'later': rng.random() < 0.3})
+        out.append({'x1': [[rng.choice(vals), 0, zv()] for _ in range(n1)], 'x2': [[rng.choice(vals), 0, zv()] for _ in range(n2)], 'p': rng.choice([1, 2, INF]), 'dim': dim, 'rematch': rng.choice([None, None, None, 'dtw', 'frechet']), 'ptype': rng.choice([None, None, 'float', 'np.int64', 'np.float64', 'np.int32']), 'later': rng.random() < 0.3, 'plot': rng.random() < 0.2})
+        if rng.random() < 0.12:                                       # the same track recorded again, some fixes repeated: a coupling of cost exactly 0 exists
+            c = out[-1]; x2 = [list(v) for v in c['x1']]
+            for _ in range(rng.randint(0, 2)):
+                i = rng.randrange(len(x2)); x2.insert(i, list(x2[i]))
+            c['x2'] = x2
     return out
 
 
@@ -53,7 +58,7 @@ def gen_planar(rng, n, tier):
         n1 = rng.randint(1, 6)
         n2 = rng.randint(1, 6)
         pt = lambda: [rng.randint(-30, 30) / 4.0, rng.randint(-30, 30) / 4.0, rng.choice([0.0, 0.0, rng.randint(-20, 20) / 4.0])]
-        out.append({'x1': [pt() for _ in range(n1)], 'x2': [pt() for _ in range(n2)], 'p': rng.choice([1, 2, INF]), 'dim': rng.choice([2, 2, 1, 3]), 'rematch': rng.choice([None, None, None, 'dtw', 'frechet']), 'ptype': rng.choice([None, None, 'float', 'np.int64', 'np.float64', 'np.int32']), 'later': rng.random() < 0.3})
+        out.append({'x1': [pt() for _ in range(n1)], 'x2': [pt() for _ in range(n2)], 'p': rng.choice([1, 2, INF]), 'dim': rng.choice([2, 2, 1, 3]), 'rematch': rng.choice([None, None, None, 'dtw', 'frechet']), 'ptype': rng.choice([None, None, 'float', 'np.int64', 'np.float64', 'np.int32']), 'later': rng.random() < 0.3, 'plot': rng.random() < 0.2})
     return out
 
 
@@ -93,7 +98,10 @@ def run_impl(case):
         t4 = mk([[v[0] + 1.5] + list(v[1:]) for v in case['x2'][::-1]] + case['x1'][:2])
         cmp.match(t1, t4, mode=cmp.MODE_MATCHING_DTW, p=1, dim=dim, verbose=False)
         cmp.match(t1, t4, mode=cmp.MODE_MATCHING_FRECHET, dim=dim, verbose=False)
-    f = cmp.match(t1, t2, mode=cmp.MODE_MATCHING_FDTW, p=p, dim=dim, verbose=False)
+    f = cmp.match(t1, t2, mode=cmp.MODE_MATCHING_FDTW, p=p, dim=dim, verbose=False, plot=bool(case.get('plot')))      # the display flag must not change what is returned
+    if case.get('plot'):
+        import matplotlib.pyplot as plt
+        plt.close('all')
     s = cmp.match(t2, t1, mode=cmp.MODE_MATCHING_FRECHET if p == INF else cmp.MODE_MATCHING_DTW, p=p, dim=dim, verbose=False)
     pairs = [[int(i) for i in m['pair', j]] for j in range(len(case['x1']))]
     D = [[dist_dim(case['x2'][i], case['x1'][j], dim) for j in range(t1.size())] for i in range(t2.size())]      # the pointwise distances, computed here (not by the implementation)
@@ -107,8 +115,8 @@ def path_of(pairs):
 
 def coq_case_tol(tol):
     def f(case, obs):
-        if 'exc' in obs:
-            return None
+        if 'exc' in obs or any(v != v or abs(v) == float('inf') for v in (obs['score'], obs['fscore'], obs['sscore'])):
+            return None                               # an undefined score is not a value of the model: left to the oracle
         n1, n2 = len(case['x1']), len(case['x2'])
         k = {1: 1, 2: 2, INF: 0}[case['p']]
         rows = coq_list(coq_list(q(v) for v in r) for r in obs['D'])
